@@ -14,7 +14,13 @@ def gen_cases(tier, seed):
     cases = []
     for i in range(n):
         p = gen_dl.gen_strat_program(rng)
-        inputs = [gen_dl.gen_input(rng, p["rels"], style=rng.choice(["small", "mixed", "dense", "sparse_chain"]))[0] for _ in range(ninp)]
+        inputs = [gen_dl.gen_input(rng, p["rels"], style=rng.choice(["small", "mixed", "dense", "sparse_chain", "some_empty", "some_empty"]))[0] for _ in range(ninp)]
+        # one more input: an aggregated / negated relation completely empty, everything else as in the first input
+        ag = gen_dl.aggregated_rels(p)
+        for a in ag[:3]:
+            emptied = dict(inputs[0])
+            emptied[a] = []
+            inputs.append(emptied)
         cases.append(dict(id="c04_%d" % i, prog=p, inputs=inputs))
     return cases
 
